@@ -244,6 +244,14 @@ impl Report {
         let mut unlisted = 0;
         let mut known_seen = vec![];
         std::fs::create_dir_all(format!("{}/replays", verif)).ok();
+        // stale witnesses of earlier runs of this property are removed
+        if let Ok(rd) = std::fs::read_dir(format!("{}/replays", verif)) {
+            for e in rd.flatten() {
+                if e.file_name().to_string_lossy().starts_with(&format!("{}-", self.prop)) {
+                    let _ = std::fs::remove_file(e.path());
+                }
+            }
+        }
         let mut n = 0;
         for (sig, v) in viols.iter() {
             if let Some(what) = known.get(&(self.prop.clone(), sig.clone())) {
